@@ -33,6 +33,9 @@ PARTIAL = {"math.log2": "<= 0", "math.log": "<= 0", "math.log10": "<= 0", "math.
 
 def run(repo: Repo, tier: str, res: CheckResult, seed: int = 0) -> None:
     m = repo.mod(EP)
+    # tier G first: what the tables say stands on its own when a shape rule below loses its anchor
+    from .. import genprog
+    genprog.c18_checks(repo, tier, res, seed)
     partial_calls(repo, m, res)
     inversion(repo, m, res)
     same_cases(repo, m, res)
@@ -1107,10 +1110,14 @@ def flag_dumper_emits_names_of_the_cases_only(repo: Repo, m: ModuleInfo, res: Ch
                         "ones): a name emitted from there is refused by the loader of the same configuration", extra.lineno))
     free_lists = set()
     for r in [x for x in walk_no_nested(cl) if isinstance(x, ast.Return) and x.value is not None]:
+        # a name that only DECIDES which value is returned (the test of a conditional expression) is not a returned value
+        deciding = {id(x) for c in ast.walk(r.value) if isinstance(c, ast.IfExp) for x in ast.walk(c.test)}
         for nm in ast.walk(r.value):
+            if id(nm) in deciding:
+                continue
             if isinstance(nm, ast.Name) and nm.id not in {a.arg for a in cl.args.args} and nm.id not in maps \
                     and not any(isinstance(a, ast.Assign) and any(isinstance(t, ast.Name) and t.id == nm.id for t in a.targets) for a in ast.walk(cl)) \
-                    and nm.id not in ("list", "reversed", "tuple", "need_to_reverse"):
+                    and nm.id not in ("list", "reversed", "tuple"):
                 free_lists.add(nm.id)
     for nm in sorted(free_lists):
         res.add(Finding("C18", "FLAG.dumper-names-outside-cases", m.rel, f"FlagByListProvider._make_dumper.{cl.name}", nm,
